@@ -15,8 +15,14 @@ Fixpoint split_lf (l : list Z) : option (list Z * list Z) :=
                    end
   end.
 
-Definition ends_cr (l : list Z) : bool :=
-  match rev l with b :: _ => b =? 13 | [] => false end.
+(* `buf.last() == Some(b'\r')` (structural, linear: the stdlib `rev` is quadratic and the
+   extracted model is run on lines of several KiB by the C13 correspondence) *)
+Fixpoint ends_cr (l : list Z) : bool :=
+  match l with
+  | [] => false
+  | [b] => b =? 13
+  | _ :: t => ends_cr t
+  end.
 
 (* `match buf.last() { Some(b'\r') => buf.truncate(len - 1), .. }` *)
 Definition strip_cr (l : list Z) : list Z := if ends_cr l then removelast l else l.
